@@ -196,6 +196,9 @@ impl Shape {
     pub fn count(&self) -> usize {
         1 + self.left.as_ref().map_or(0, |l| l.count()) + self.right.as_ref().map_or(0, |r| r.count())
     }
+    pub fn depth(&self) -> usize {
+        1 + self.left.as_ref().map_or(0, |l| l.depth()).max(self.right.as_ref().map_or(0, |r| r.depth()))
+    }
     pub fn show(&self) -> String {
         let mut s = String::new();
         self.show_into(&mut s);
